@@ -576,7 +576,7 @@ void adapter_exec(Ev *ev)
         RPMaybeFrame mf; memset(&mf, 0, sizeof mf);
         int rc = regp_recv(&rp, &mf);
         if (rc >= 0) (void)regp_process(&rp, &mf);
-        regp_free(&rp, rc >= 0 ? mf.frame : NULL);
+        regp_free(&rp, mf.frame);
         for (size_t i = 0; i < srv_outn; i++) obs(ev, srv_out[i]);
         obs(ev, -7); image(ev); obs(ev, -7); touchvec(ev);
         if (nw) xfree(wire); else xfree0(wire);
